@@ -18,8 +18,18 @@
                                            -> none | one | msg <preimage>       the Spec
     sdel <where> <sig>                     -> none | ok <res> <cnt>             Spec.findAndDelete
   R = panic | undefined | const <digest> | hashed <preimage> <digest>
+
+  Histories over SEVERAL transaction objects (Model.SigHashLife, `lifeStep freshAlloc` = the code's AllocVerVars / Clean):
+    wnew                                   -> ok                no objects
+    wobj <ver> <lock> … (as `tx`)          -> ok <id>           a new object (TxVerVars nil); <nspent> outputs are what
+                                                                its caller installs after AllocVerVars
+    walloc <id> <assign|append>            -> ok                tx.AllocVerVars() + Spent_outputs installed
+    wclean <id>                            -> ok                tx.Clean()
+    wleg <id> … / wwit <id> … / wtap <id> … (arguments as leg / wit / tap) -> R
+    wcache <id>                            -> nil | c <p><s><o><t><u>
 -/
 import GocoinV.Model.SigHash
+import GocoinV.Model.SigHashLife
 import GocoinV.Spec.SigHash
 import GocoinV.Base.Sha256
 import GocoinV.Base.Proto
@@ -29,6 +39,8 @@ structure St where
   tx : Tx := default
   spent : List TxOut := []
   cache : Cache := {}
+  objs : List Obj := []
+  world : World Unit := { heap := [], pool := () }
 
 def showRes : Res → String
   | .panic => "panic"
@@ -58,8 +70,58 @@ def parseOuts : Nat → List String → Option (List TxOut × List String)
 def optHex (s : String) : Option (Option Bytes) :=
   if s == "nil" then some none else (Hex.decode s).map some
 
+def parseTxLine (toks : List String) : Option (Tx × List TxOut) :=
+  match toks with
+  | ver :: lock :: nin :: nout :: nsp :: rest => do
+    let ver ← ver.toNat?
+    let lock ← lock.toNat?
+    let nin ← nin.toNat?
+    let nout ← nout.toNat?
+    let nsp ← nsp.toNat?
+    let (ins, r1) ← parseIns nin rest
+    let (outs, r2) ← parseOuts nout r1
+    match parseOuts nsp r2 with
+    | some (sp, []) => some ({ version := ver, ins := ins, outs := outs, witness := none, lockTime := lock }, sp)
+    | _ => none
+  | _ => none
+
+/-- the arguments of `leg` / `wit` / `tap` as a `Call` -/
+def parseCall (kind : String) (args : List String) : Option Call :=
+  match kind, args with
+  | "leg", [sc, nIn, ht] => do
+    let sc ← Hex.decode sc
+    let nIn ← nIn.toNat?
+    let ht ← ht.toNat?
+    if ht < 2^32 then some (.leg sc nIn ht) else none
+  | "wit", [sc, am, nIn, ht] => do
+    let sc ← Hex.decode sc
+    let am ← am.toNat?
+    let nIn ← nIn.toNat?
+    let ht ← ht.toNat?
+    if ht < 2^32 then some (.wit sc am nIn ht) else none
+  | "tap", [ah, leaf, cs, pos, ht, scr] => do
+    let ah ← optHex ah
+    let leaf ← Hex.decode leaf
+    let cs ← cs.toNat?
+    let pos ← pos.toNat?
+    let ht ← ht.toNat?
+    if ht < 256 ∧ (scr == "0" ∨ scr == "1") then
+      some (.tap { annexHash := ah, tapleafHash := leaf, codesepPos := cs } pos ht (scr == "1"))
+    else none
+  | _, _ => none
+
 def H : Bytes → Bytes := sha256
 def dsha (b : Bytes) : Bytes := sha256 (sha256 b)
+
+/-- a digest request on object <id> of the history -/
+def lifeCall (st : St) (id : String) (kind : String) (args : List String) : St × String :=
+  match id.toNat?, parseCall kind args with
+  | some id, some k =>
+    let r := lifeStep freshAlloc H st.objs st.world (.call id k)
+    match r.2 with
+    | some res => ({ st with world := r.1 }, showRes res)
+    | none => (st, "bad-op")
+  | _, _ => (st, "bad-op")
 
 def step (st : St) (toks : List String) : St × String :=
   let bad := (st, "bad-op")
@@ -80,6 +142,37 @@ def step (st : St) (toks : List String) : St × String :=
           | _ => bad
     | _, _, _, _, _ => bad
   | ["reset"] => ({ st with cache := {} }, "ok")
+  | ["wnew"] => ({ st with objs := [], world := { heap := [], pool := () } }, "ok")
+  | "wobj" :: rest =>
+    match parseTxLine rest with
+    | some (tx, sp) =>
+      ({ st with objs := st.objs ++ [{ tx := tx, spent := sp }],
+                 world := { st.world with heap := st.world.heap ++ [none] } }, s!"ok {st.objs.length}")
+    | none => bad
+  | ["walloc", id, how] =>
+    match id.toNat?, (if how == "assign" then some Install.assign else if how == "append" then some Install.append else none) with
+    | some id, some how =>
+      if id < st.objs.length then ({ st with world := (lifeStep freshAlloc H st.objs st.world (.alloc id how)).1 }, "ok") else bad
+    | _, _ => bad
+  | ["wclean", id] =>
+    match id.toNat? with
+    | some id =>
+      if id < st.objs.length then ({ st with world := (lifeStep freshAlloc H st.objs st.world (.clean id)).1 }, "ok") else bad
+    | none => bad
+  | ["wcache", id] =>
+    match id.toNat? with
+    | some id =>
+      match st.world.heap[id]? with
+      | some none => (st, "nil")
+      | some (some v) =>
+        let b (x : Bool) := if x then "1" else "0"
+        let c := v.cache
+        (st, s!"c {b c.hashPrevouts.isSome}{b c.hashSequence.isSome}{b c.hashOutputs.isSome}{b c.tapSingle.isSome}{b c.tapOutSingle.isSome}")
+      | none => bad
+    | none => bad
+  | "wleg" :: id :: args => lifeCall st id "leg" args
+  | "wwit" :: id :: args => lifeCall st id "wit" args
+  | "wtap" :: id :: args => lifeCall st id "tap" args
   | ["cache"] =>
     let b (x : Bool) := if x then "1" else "0"
     let c := st.cache
